@@ -10,7 +10,9 @@ import (
 	"go/token"
 	"go/types"
 	"os"
+	"os/exec"
 	"path/filepath"
+	"regexp"
 	"sort"
 	"strings"
 
@@ -55,9 +57,22 @@ type Instrumented struct {
 	Reports []Report
 }
 
-// Build rewrites package main of the repository (and nothing else unless deps is set), writes the
-// overlay into dir, and builds the plugin to dir/plugin.sim.
-func Build(dir string) (*Instrumented, error) {
+// TextPathDeps are the dependency packages whose code produces or orders text of the generated file.
+var TextPathDeps = []string{
+	"github.com/gogo/protobuf/protoc-gen-gogo/generator",
+	"github.com/gogo/protobuf/vanity/command",
+	"github.com/dave/jennifer/jen",
+	"golang.org/x/tools/imports",
+	"golang.org/x/tools/internal/imports",
+	"github.com/stoewer/go-strcase",
+}
+
+// Build rewrites package main of the repository (and, with deps, the dependency packages on the
+// text path), writes the overlay into dir, and builds the plugin to dir/plugin.sim. Every rewritten
+// package carries its own copy of the runtime (appended to its first rewritten file, with aliased
+// standard-library imports): a package added through the overlay cannot be imported from a
+// dependency module. All copies read the same schedule and append to the same event log.
+func Build(dir string, deps bool) (*Instrumented, error) {
 	repo := pipeline.RepoDir
 	cfg := &packages.Config{
 		Mode: packages.NeedName | packages.NeedFiles | packages.NeedCompiledGoFiles | packages.NeedSyntax |
@@ -80,29 +95,50 @@ func Build(dir string) (*Instrumented, error) {
 		}
 		return nil, &pipeline.BuildError{What: "package main of the repository does not type-check", Out: sb.String()}
 	}
-	modPath := "github.com/gravitational/protoc-gen-terraform/v3"
-	if mainPkg.Module != nil {
-		modPath = mainPkg.Module.Path
-	}
-	rtImport := modPath + "/" + rtPkgName
-
 	ovDir := filepath.Join(dir, "overlay")
 	if err := os.MkdirAll(ovDir, 0o755); err != nil {
 		return nil, err
 	}
 	replace := map[string]string{}
-	rep, err := rewritePackage(mainPkg, ovDir, replace, rtPkgName+"."+rtPrefix, `import `+rtPkgName+` "`+rtImport+`"`, true)
+	rep, err := rewritePackage(mainPkg, ovDir, replace, rtPrefix, true)
 	if err != nil {
 		return nil, err
 	}
-	// runtime package
-	rt := strings.ReplaceAll(strings.ReplaceAll(simrtSrc, "PKGNAME", rtPkgName), "PFX", rtPrefix)
-	rtFile := filepath.Join(ovDir, "verifsimrt.go")
-	if err := os.WriteFile(rtFile, []byte(rt), 0o644); err != nil {
-		return nil, err
+	reports := []Report{*rep}
+	if deps {
+		want := map[string]bool{}
+		for _, d := range TextPathDeps {
+			want[d] = true
+		}
+		seen := map[string]bool{}
+		var found []*packages.Package
+		var walk func(p *packages.Package)
+		walk = func(p *packages.Package) {
+			if seen[p.PkgPath] {
+				return
+			}
+			seen[p.PkgPath] = true
+			if want[p.PkgPath] {
+				found = append(found, p)
+			}
+			for _, ip := range p.Imports {
+				walk(ip)
+			}
+		}
+		walk(mainPkg)
+		sort.Slice(found, func(i, j int) bool { return found[i].PkgPath < found[j].PkgPath })
+		for _, dp := range found {
+			if len(dp.Syntax) == 0 || dp.TypesInfo == nil || len(dp.Syntax) != len(dp.CompiledGoFiles) {
+				reports = append(reports, Report{Package: dp.PkgPath + " (not rewritten: no syntax/type information loaded)"})
+				continue
+			}
+			r, err := rewritePackage(dp, ovDir, replace, rtPrefix, false)
+			if err != nil {
+				return nil, err
+			}
+			reports = append(reports, *r)
+		}
 	}
-	replace[filepath.Join(repo, rtPkgName, "verifsimrt.go")] = rtFile
-
 	ovJSON, _ := json.MarshalIndent(map[string]interface{}{"Replace": replace}, "", " ")
 	ovPath := filepath.Join(dir, "overlay.json")
 	if err := os.WriteFile(ovPath, ovJSON, 0o644); err != nil {
@@ -112,7 +148,39 @@ func Build(dir string) (*Instrumented, error) {
 	if err := pipeline.BuildPlugin(bin, ovPath); err != nil {
 		return nil, err
 	}
-	return &Instrumented{Bin: bin, Reports: []Report{*rep}}, nil
+	return &Instrumented{Bin: bin, Reports: reports}, nil
+}
+
+var helperPkgs = []string{"json", "errors", "fmt", "os", "reflect", "sort", "strings", "sync", "syscall", "time"}
+
+// helperSource splits the runtime template into an aliased import block and a body whose package
+// references use the aliases (so it can live inside any package without clashing with its imports).
+func helperSource() (imports, body string) {
+	src := strings.ReplaceAll(simrtSrc, "PFX", rtPrefix)
+	i := strings.Index(src, "import (")
+	j := strings.Index(src[i:], ")") + i
+	body = src[j+1:]
+	paths := map[string]string{"json": "encoding/json", "errors": "errors", "fmt": "fmt", "os": "os", "reflect": "reflect", "sort": "sort",
+		"strings": "strings", "sync": "sync", "syscall": "syscall", "time": "time"}
+	var ib strings.Builder
+	ib.WriteString("import (\n")
+	for _, n := range helperPkgs {
+		alias := "vsrt_" + n
+		fmt.Fprintf(&ib, "\t%s %q\n", alias, paths[n])
+		body = regexp.MustCompile(`(^|[^A-Za-z0-9_.])`+n+`\.`).ReplaceAllString(body, "${1}"+alias+".")
+	}
+	ib.WriteString(")\n")
+	return ib.String(), body
+}
+
+func goRoot() (string, error) {
+	cmd := exec.Command("go", "env", "GOROOT")
+	cmd.Env = pipeline.GoEnv()
+	b, err := cmd.Output()
+	if err != nil {
+		return "", &pipeline.BuildError{What: "go env GOROOT failed", Out: err.Error()}
+	}
+	return strings.TrimSpace(string(b)), nil
 }
 
 func relSite(fset *token.FileSet, pos token.Pos) string {
@@ -123,7 +191,8 @@ func relSite(fset *token.FileSet, pos token.Pos) string {
 // rewritePackage rewrites every file of pkg that has at least one seam site.
 // q is the qualifier+prefix for runtime calls ("verifsimrt.VerifSim"); importLine is added after
 // the package clause of each rewritten file ("" when the runtime lives in the package itself).
-func rewritePackage(pkg *packages.Package, outDir string, replace map[string]string, q, importLine string, injectErrors bool) (*Report, error) {
+func rewritePackage(pkg *packages.Package, outDir string, replace map[string]string, q string, injectErrors bool) (*Report, error) {
+	helperDone := false
 	rep := &Report{Package: pkg.PkgPath}
 	info := pkg.TypesInfo
 	fset := pkg.Fset
@@ -261,7 +330,7 @@ func rewritePackage(pkg *packages.Package, outDir string, replace map[string]str
 				if x.Body == nil {
 					return true
 				}
-				if x.Name.Name == "build" && x.Recv != nil {
+				if injectErrors && x.Name.Name == "build" && x.Recv != nil {
 					rep.BuildExtent = true
 					add(off(x.Body.Lbrace)+1, off(x.Body.Lbrace)+1, "\n"+q+"EnterBuild()\ndefer "+q+"LeaveBuild()\n")
 				}
@@ -335,10 +404,14 @@ func rewritePackage(pkg *packages.Package, outDir string, replace map[string]str
 		for _, k := range keep {
 			add(len(src), len(src), "\nvar _ = "+k+"\n")
 		}
-		// the import goes right after the package clause
-		if importLine != "" {
+		// the first rewritten file of the package hosts the runtime: aliased imports right after the
+		// package clause, the body at the end of the file
+		if !helperDone {
+			helperDone = true
+			imp, body := helperSource()
 			e := off(f.Name.End())
-			add(e, e, "\n"+importLine+"\n")
+			add(e, e, "\n"+imp+"\n")
+			add(len(src), len(src), "\n"+body+"\n")
 		}
 		// Apply from the end of the file backwards. At equal offsets: insertions recorded later
 		// (inner constructs) must end up *before* earlier ones only for closings; for openings the
